@@ -210,6 +210,16 @@ func RefAdd(r Term, off Term) Term {
 	if off.S == "0" {
 		return r
 	}
+	// fold (mkref id c1) + c2
+	if strings.HasPrefix(r.S, "(mkref ") {
+		if i := strings.LastIndexByte(r.S, ' '); i > 0 {
+			if c1, ok := new(big.Int).SetString(r.S[i+1:len(r.S)-1], 10); ok {
+				if c2, ok := new(big.Int).SetString(off.S, 10); ok {
+					return Term{r.S[:i+1] + new(big.Int).Add(c1, c2).String() + ")", SRef}
+				}
+			}
+		}
+	}
 	return MkRef(Rid(r), Add(Roff(r), off))
 }
 
@@ -217,6 +227,17 @@ func MkSlice(base, ln, cp Term) Term { return App(SSlice, "mkslice", base, ln, c
 func SBase(s Term) Term              { return App(SRef, "sbase", s) }
 func SLen(s Term) Term               { return App(SInt, "slen", s) }
 func SCap(s Term) Term               { return App(SInt, "scap", s) }
+
+// ElemAddr is the address of element idx (elements of k slots each) in a
+// contiguous region starting at base. Symbolic indices go through the
+// uninterpreted-with-axiom function eaddr so that quantifier patterns over
+// element reads contain no arithmetic.
+func ElemAddr(base Term, idx Term, k int64) Term {
+	if c, ok := constIntOf(idx); ok && c.IsInt64() {
+		return RefAdd(base, IntLit(c.Int64()*k))
+	}
+	return App(SRef, "eaddr", base, idx, IntLit(k))
+}
 
 var NilSlice = Term{"(mkslice (mkref 0 0) 0 0)", SSlice}
 
@@ -233,6 +254,8 @@ const smtPrelude = `(declare-datatypes ((Ref 0)) (((mkref (rid Int) (roff Int)))
 (declare-sort Func 0)
 (declare-fun strlen (Str) Int)
 (declare-fun dyn (Ref) Int)
+(declare-fun eaddr (Ref Int Int) Ref)
+(assert (forall ((b Ref) (i Int) (k Int)) (! (= (eaddr b i k) (mkref (rid b) (+ (roff b) (* i k)))) :pattern ((eaddr b i k)))))
 `
 
 func pow2(n int) *big.Int { return new(big.Int).Lsh(big.NewInt(1), uint(n)) }
